@@ -130,9 +130,17 @@ Definition vtt_convert_positioning (c : wcfg) (lo : option layout) : result vtt_
     end
   end.
 
-(* _group_cues_by_layout: consecutive TEXT nodes whose layout differs from the current one start a new cue.
+(* _group_cues_by_layout: a TEXT node whose layout differs from the current one starts a new cue; so does (since the
+   fix "a span opens in the cue of its own layout group") a STYLE START node that carries a layout different from the
+   current one: the group is flushed, the span's layout becomes the current one and its tag opens the next cue.
    Returns the layout of each group, in order (the texts are C03/C11's business).
-   State: (has_text s, current_layout). `if s and current_layout and node.layout_info != current_layout` *)
+   State: (s is non-empty, current_layout).
+     TEXT : `if s and current_layout and node.layout_info != current_layout` -> flush; s += text; current = node's
+     STYLE: `if node.start and s and current_layout and node.layout_info and node.layout_info != current_layout`
+            -> flush, current = node's; then s += tags (if the style has italics / bold / underline)
+     BREAK: s += newline
+   Node kinds: 1 TEXT, 3 BREAK, STYLE: 2 start with tags, 4 start without tags ({} content), 5 end with tags,
+   6 (and anything else) end without tags. *)
 Definition opt_layout_truthy (o : option layout) : bool :=
   match o with Some l => layout_truthy l | None => false end.
 Definition opt_layout_eqb (a b : option layout) : bool :=
@@ -141,6 +149,9 @@ Definition opt_layout_eqb (a b : option layout) : bool :=
   | None, None => true
   | _, _ => false
   end.
+
+Definition style_start (k : Z) : bool := (k =? 2) || (k =? 4).
+Definition style_tags (k : Z) : bool := (k =? 2) || (k =? 5).
 
 Fixpoint vtt_groups_aux (nodes : list nnode) (has_s : bool) (cur : option layout) : list (option layout) :=
   match nodes with
@@ -151,8 +162,11 @@ Fixpoint vtt_groups_aux (nodes : list nnode) (has_s : bool) (cur : option layout
         then cur :: vtt_groups_aux t true (n_layout n)
         else vtt_groups_aux t true (n_layout n)
       else if n_kind n =? 3 then vtt_groups_aux t true cur      (* a break always appends to s *)
-      else if n_kind n =? 2 then vtt_groups_aux t true cur      (* a style node with italics/bold/underline appends its tag *)
-      else vtt_groups_aux t has_s cur                            (* a style node with empty content appends nothing *)
+      else
+        if style_start (n_kind n) && has_s && opt_layout_truthy cur && opt_layout_truthy (n_layout n)
+           && negb (opt_layout_eqb (n_layout n) cur)
+        then cur :: vtt_groups_aux t (style_tags (n_kind n)) (n_layout n)   (* s = "" and then the opening tags *)
+        else vtt_groups_aux t (has_s || style_tags (n_kind n)) cur          (* tags (if any) are appended to s *)
   end.
 Definition vtt_groups (nodes : list nnode) : list (option layout) := vtt_groups_aux nodes false None.
 
